@@ -68,7 +68,12 @@ pub enum Step { Fire(usize), Ctl(usize, bool),
     Race(usize, bool),
     /// reboot wait: timer `i` fires and a scheduled-source request `id` arrives before the machine runs again (two branches of
     /// the wait's `select!` ready at once; whichever is taken first, both are served and the trace is the same)
-    FireCtl(usize, usize) }
+    FireCtl(usize, usize),
+    /// two requests at the outer wait before the machine runs again: the first (id, source) ends the wait; the second stays
+    /// queued — answered during the check if the first one starts a check, taken at the next wait if it is refused
+    Ctl2(usize, bool, usize, bool),
+    /// the request that ends this wait is already in the channel (the second one of the previous unit's `Ctl2`)
+    CtlQueued(usize, bool) }
 
 #[derive(Clone, Debug, Default)]
 pub struct UnitEnv {
